@@ -43,8 +43,14 @@ def spec_trace(inv, node_path):
         if name in stack:
             raise SpecError('cycle')
         stack.append(name)
+        # the include list is a list of distinct entries: names are made absolute when the file is
+        # read and an entry spelled again (same text, e.g. a repeated `${sel}`) is the same entry
+        incs = []
         for inc in strings(field(doc, 'classes')):
-            inc = G.py_abs_class_name(loc, inc)      # literal names are made absolute when the file is read
+            inc = G.py_abs_class_name(loc, inc)
+            if inc not in incs:
+                incs.append(inc)
+        for inc in incs:
             if '${' in inc:
                 key = inc[2:-1]
                 if key not in sel:
